@@ -15,6 +15,7 @@ import GFO.Model.Population
 import GFO.Model.Evolution
 import GFO.Model.Pattern
 import GFO.Model.Powell
+import GFO.Model.Simplex
 open GFO GFO.Proto
 
 /-- one recorded backend interaction of the real run -/
@@ -56,6 +57,7 @@ structure Script where
   pt : Option (PopCfg × GASt) := none           -- when present: a complete population model (GFO.Model.Population / Evolution)
   pat : Option (PatCfg × PatSt) := none         -- when present: the complete pattern search model (GFO.Model.Pattern)
   pow : Option (PowCfg × PowSt) := none         -- when present: the complete Powell's method model (GFO.Model.Powell)
+  sim : Option (SimCfg × SimSt) := none         -- when present: the complete downhill simplex model (GFO.Model.Simplex)
 deriving Inhabited
 
 def Script.raisesNow (s : Script) : Bool := match s.queue with
@@ -145,7 +147,7 @@ def backendPat : Backend Script where
     | none => backendPop.finishInit s
 
 /-- … and the complete Powell's method model -/
-def backendOf : Backend Script where
+def backendPow : Backend Script where
   initPos s := match s.pow with
     | some (cfg, g) => ((powBackend cfg).initPos g).map (fun x => (x.1, { s with pow := some (cfg, x.2) }))
     | none => backendPat.initPos s
@@ -161,6 +163,24 @@ def backendOf : Backend Script where
   finishInit s := match s.pow with
     | some (cfg, g) => ((powBackend cfg).finishInit g).map (fun g' => { s with pow := some (cfg, g') })
     | none => backendPat.finishInit s
+
+/-- … and the complete downhill simplex model -/
+def backendOf : Backend Script where
+  initPos s := match s.sim with
+    | some (cfg, g) => ((simBackend cfg).initPos g).map (fun x => (x.1, { s with sim := some (cfg, x.2) }))
+    | none => backendPow.initPos s
+  iterate s := match s.sim with
+    | some (cfg, g) => ((simBackend cfg).iterate g).map (fun x => (x.1, { s with sim := some (cfg, x.2) }))
+    | none => backendPow.iterate s
+  evalInit s x := match s.sim with
+    | some (cfg, g) => ((simBackend cfg).evalInit g x).map (fun g' => { s with sim := some (cfg, g') })
+    | none => backendPow.evalInit s x
+  evaluate s x := match s.sim with
+    | some (cfg, g) => ((simBackend cfg).evaluate g x).map (fun g' => { s with sim := some (cfg, g') })
+    | none => backendPow.evaluate s x
+  finishInit s := match s.sim with
+    | some (cfg, g) => ((simBackend cfg).finishInit g).map (fun g' => { s with sim := some (cfg, g') })
+    | none => backendPow.finishInit s
 
 def showTracker (t : Tracker) : String :=
   s!"new={showOpt showPos t.posNew}:{showF t.scoreNew} cur={showOpt showPos t.posCurrent}:{showF t.scoreCurrent} " ++
@@ -220,9 +240,10 @@ def flushTape (m : M) : M :=
     | none, none, some (cfg, g), _ => { b with pt := some (cfg, { g with pop := { g.pop with tape := g.pop.tape ++ es } }) }
     | none, none, none, some (cfg, g) => { b with pat := some (cfg, { g with tape := g.tape ++ es }) }
     | none, none, none, none =>
-      match b.pow with
-      | some (cfg, g) => { b with pow := some (cfg, { g with tape := g.tape ++ es }) }
-      | none => b
+      match b.pow, b.sim with
+      | some (cfg, g), _ => { b with pow := some (cfg, { g with tape := g.tape ++ es }) }
+      | none, some (cfg, g) => { b with sim := some (cfg, { g with tape := g.tape ++ es }) }
+      | none, none => b
   { m with d := { m.d with bst := b' }, pending := #[] }
 
 /-- run the pending call; output = one line per step of this call, then the result line -/
@@ -447,6 +468,17 @@ def exec (m : M) (cmd : String) : P (M × List String) := do
                 | some h => s!"inner {showTracker h.tr}"
                 | none => "inner None"])
     | none => pure (m, ["err:no-powell-backend"])
+  | "snew" => do
+    let nInits ← pNat
+    let initL ← pList (pN m.sp.dims.length pInt)
+    let cfg : SimCfg := { nSimp := m.sp.dims.length + 1, geo := m.sp.geo }
+    pure ({ m with d := { nInits := nInits, bst := { sim := some (cfg, { initL := initL }) } }, call := none, warm := [], steps := #[], byCall := #[], pending := #[] }, ["ok"])
+  | "sstate" =>
+    match m.d.bst.sim with
+    | some (_, g) =>
+      pure (m, [s!"tracker {showTracker g.tr}",
+                s!"simplex step={g.step} idx={g.compressIdx} pos={showList (showOpt showPos) g.simplexPos} scores={showList showF g.simplexScores} tapeLeft={g.tape.length}"])
+    | none => pure (m, ["err:no-simplex-backend"])
   | "lstep" => do
     let dur ← pRat; let r ← pRes
     pure ({ m with steps := m.steps.push (r, dur) }, [])
